@@ -37,12 +37,41 @@ open YaraModel
 
 abbrev Bytes := List UInt8
 
+/-! ### floating point: the operations are PARAMETERS
+
+A `double` is carried as the 64-bit pattern that sits in the VM's stack slot (as a signed `Int`, like every VM word).
+What `+ - * / unary- < <= > >= == !=` and the int→double conversion DO with those patterns is not specified here: it is a
+parameter (`Env.fops`), the same for the specification `eval` and for the VM model (OP_DBL_*, OP_INT_TO_DBL), and every
+theorem holds for every choice.  No law is required of the operations.  (libyara's `==` on doubles is
+`fabs(a - b) < DBL_EPSILON`, `!=` is `fabs(a - b) >= DBL_EPSILON`: two primitives applied to the difference.) -/
+structure FloatOps where
+  ofInt : Int → Int                  -- (double) i
+  add : Int → Int → Int
+  sub : Int → Int → Int
+  mul : Int → Int → Int
+  div : Int → Int → Int
+  neg : Int → Int
+  lt : Int → Int → Bool
+  le : Int → Int → Bool
+  gt : Int → Int → Bool
+  ge : Int → Int → Bool
+  nearZero : Int → Bool              -- fabs(x) < DBL_EPSILON
+  farZero : Int → Bool               -- fabs(x) >= DBL_EPSILON
+
+/-- a placeholder instance (every operation constant) -/
+def FloatOps.trivial : FloatOps :=
+  { ofInt := fun _ => 0, add := fun _ _ => 0, sub := fun _ _ => 0, mul := fun _ _ => 0, div := fun _ _ => 0, neg := fun _ => 0,
+    lt := fun _ _ => false, le := fun _ _ => false, gt := fun _ _ => false, ge := fun _ _ => false,
+    nearZero := fun _ => false, farZero := fun _ => false }
+
+instance : Inhabited FloatOps := ⟨FloatOps.trivial⟩
+
 inductive Val
   | undef
   | int (i : Int)
   | bool (b : Bool)
   | str (s : Bytes)
-  | flt (f : Float)
+  | flt (w : Int)                     -- a double: its 64-bit pattern (see `FloatOps`)
 
 /-- a string of the rule, or the placeholder `$` / `#` / `@` / `!` of the enclosing `for..of` -/
 inductive SRef
@@ -79,7 +108,7 @@ deriving DecidableEq, Repr
 inductive Expr
   -- integer / float / string valued (grammar: primary_expression)
   | int (v : Int)
-  | flt (f : Float)
+  | flt (w : Int)                     -- a double: its 64-bit pattern (see `FloatOps`)
   | str (s : Bytes)
   | filesize
   | ext (name : String)
@@ -149,6 +178,7 @@ structure Env where
   rules : List Bool                   -- verdicts of the rules defined earlier
   disabled : List Nat := []           -- rules switched off through the API (yr_rule_disable): they never match;
                                       -- a direct reference to one is undefined (docs/capi.rst), inside a rule set it counts as not matching
+  fops : FloatOps := FloatOps.trivial -- what the double operations do (a parameter: see `FloatOps`)
 
 /-- the rule with index `k` (declared earlier) matched: a disabled rule never does -/
 def Env.ruleMatched (env : Env) (k : Nat) : Bool := env.rules.getD k false && !env.disabled.contains k
@@ -165,7 +195,7 @@ def truthy : Val → Option Bool
   | .bool b => some b
   | .int i => some (i != 0)
   | .str s => some (!s.isEmpty)
-  | .flt f => some (f.toBits != 0)
+  | .flt w => some (w != 0)            -- the VM tests the 64-bit slot: every pattern but +0.0 is true
 
 /-- undefined counts as false -/
 def asBool (v : Val) : Bool := truthy v == some true
@@ -197,23 +227,24 @@ def arithInt : ArOp → Int → Int → Val
   | .shl, a, b => if b < 0 then .undef else if b < 64 then .int (C.shl a b) else .int 0
   | .shr, a, b => if b < 0 then .undef else if b < 64 then .int (C.shr a b) else .int 0
 
-def arithFlt : ArOp → Float → Float → Val
-  | .add, a, b => .flt (a + b)
-  | .sub, a, b => .flt (a - b)
-  | .mul, a, b => .flt (a * b)
-  | .div, a, b => .flt (a / b)
-  | _, _, _ => .undef                  -- not well-typed
+def arithFlt (fo : FloatOps) : ArOp → Int → Int → Val
+  | .add, a, b => .flt (fo.add a b)
+  | .sub, a, b => .flt (fo.sub a b)
+  | .mul, a, b => .flt (fo.mul a b)
+  | .div, a, b => .flt (fo.div a b)
+  | _, _, _ => .undef                  -- not well-typed (`%` and the bitwise operators reject floats at compile time)
 
-def vArith (op : ArOp) : Val → Val → Val
+/-- an integer operand next to a double one is promoted (`(double) i`) -/
+def vArith (fo : FloatOps) (op : ArOp) : Val → Val → Val
   | .int a, .int b => arithInt op a b
-  | .int a, .flt b => arithFlt op (Float.ofInt a) b
-  | .flt a, .int b => arithFlt op a (Float.ofInt b)
-  | .flt a, .flt b => arithFlt op a b
+  | .int a, .flt b => arithFlt fo op (fo.ofInt a) b
+  | .flt a, .int b => arithFlt fo op a (fo.ofInt b)
+  | .flt a, .flt b => arithFlt fo op a b
   | _, _ => .undef
 
-def vNeg : Val → Val
+def vNeg (fo : FloatOps) : Val → Val
   | .int a => .int (C.neg a)
-  | .flt a => .flt (-a)
+  | .flt a => .flt (fo.neg a)
   | _ => .undef
 
 def vBnot : Val → Val
@@ -228,15 +259,13 @@ def cmpInt : CmpOp → Int → Int → Bool
   | .gt, a, b => a > b
   | .ge, a, b => a ≥ b
 
-def dblEpsilon : Float := 2.220446049250313e-16
-
-def cmpFlt : CmpOp → Float → Float → Bool
-  | .eq, a, b => Float.abs (a - b) < dblEpsilon
-  | .neq, a, b => Float.abs (a - b) ≥ dblEpsilon
-  | .lt, a, b => a < b
-  | .le, a, b => a ≤ b
-  | .gt, a, b => a > b
-  | .ge, a, b => a ≥ b
+def cmpFlt (fo : FloatOps) : CmpOp → Int → Int → Bool
+  | .eq, a, b => fo.nearZero (fo.sub a b)
+  | .neq, a, b => fo.farZero (fo.sub a b)
+  | .lt, a, b => fo.lt a b
+  | .le, a, b => fo.le a b
+  | .gt, a, b => fo.gt a b
+  | .ge, a, b => fo.ge a b
 
 /-- lexicographic three-way comparison of byte strings: -1 / 0 / 1 -/
 def strCompare : Bytes → Bytes → Int
@@ -247,11 +276,11 @@ def strCompare : Bytes → Bytes → Int
 
 def cmpStr (op : CmpOp) (a b : Bytes) : Bool := cmpInt op (strCompare a b) 0
 
-def vCmp (op : CmpOp) : Val → Val → Val
+def vCmp (fo : FloatOps) (op : CmpOp) : Val → Val → Val
   | .int a, .int b => .bool (cmpInt op a b)
-  | .int a, .flt b => .bool (cmpFlt op (Float.ofInt a) b)
-  | .flt a, .int b => .bool (cmpFlt op a (Float.ofInt b))
-  | .flt a, .flt b => .bool (cmpFlt op a b)
+  | .int a, .flt b => .bool (cmpFlt fo op (fo.ofInt a) b)
+  | .flt a, .int b => .bool (cmpFlt fo op a (fo.ofInt b))
+  | .flt a, .flt b => .bool (cmpFlt fo op a b)
   | .str a, .str b => .bool (cmpStr op a b)
   | _, _ => .undef
 
@@ -425,15 +454,15 @@ def eval (env : Env) : LEnv → Expr → Val
   | l, .offset s i => vOffset (env.matchesOf l s) (eval env l i)
   | l, .length s i => vLength (env.matchesOf l s) (eval env l i)
   | l, .read k off => vRead env.blocks k (eval env l off)
-  | l, .neg e => vNeg (eval env l e)
+  | l, .neg e => vNeg env.fops (eval env l e)
   | l, .bnot e => vBnot (eval env l e)
-  | l, .arith op a b => vArith op (eval env l a) (eval env l b)
+  | l, .arith op a b => vArith env.fops op (eval env l a) (eval env l b)
   | _, .tt => .bool true
   | _, .ff => .bool false
   | l, .found s => .bool (!(env.matchesOf l s).isEmpty)
   | l, .foundAt s pos => vFoundAt (env.matchesOf l s) (eval env l pos)
   | l, .foundIn s lo hi => vFoundIn (env.matchesOf l s) (eval env l lo) (eval env l hi)
-  | l, .cmp op a b => vCmp op (eval env l a) (eval env l b)
+  | l, .cmp op a b => vCmp env.fops op (eval env l a) (eval env l b)
   | l, .strop op a b => vStrOp op (eval env l a) (eval env l b)
   | l, .matches a re nocase => vMatches re nocase (eval env l a)
   | l, .not e => vNot (eval env l e)
@@ -493,11 +522,12 @@ def evalRules (blocks : List (Nat × Bytes)) (filesize : Int) (ext : List (Strin
 
 /-- the same with the rules whose indices are in `disabled` switched off (yr_rule_disable): they do not match, whatever
     their condition says; later rules see them as described at `Env.disabled` -/
-def evalRulesD (blocks : List (Nat × Bytes)) (filesize : Int) (ext : List (String × Val)) (disabled : List Nat) :
+def evalRulesD (blocks : List (Nat × Bytes)) (filesize : Int) (ext : List (String × Val)) (disabled : List Nat)
+    (fops : FloatOps) :
     List Rule → List Bool → List Bool
   | [], acc => acc
   | r :: rs, acc =>
-    evalRulesD blocks filesize ext disabled rs
-      (acc ++ [!disabled.contains acc.length && ruleVerdict { strs := r.strs, blocks, filesize, ext, rules := acc, disabled } r.cond])
+    evalRulesD blocks filesize ext disabled fops rs
+      (acc ++ [!disabled.contains acc.length && ruleVerdict { strs := r.strs, blocks, filesize, ext, rules := acc, disabled, fops } r.cond])
 
 end YaraModel.Cond
